@@ -4,6 +4,7 @@
 #define DSIM_SIMSTORE_EXEC_H
 #include "simstore.h"
 #include <Bpp/App/ApplicationTools.h>
+#include <Bpp/App/NumCalcApplicationTools.h>
 #include <Bpp/Utils/AttributesTools.h>
 #include <Bpp/Text/KeyvalTools.h>
 #include <Bpp/Text/NestedStringTokenizer.h>
@@ -138,6 +139,7 @@ public:
     else if (k == "r.optmap") rOptMap(o);
     else if (k == "r.resolve") rResolve(o);
     else if (k == "r.query") rQuery(o);
+    else if (k == "r.numcalc") rNumcalc(o);
     else if (k == "r.parseopts") rParseOpts(o);
     else if (k == "r.dist" || k == "r.dist.truncexp" || k == "r.dist.param") rDist(o);
     else if (k == "r.pfmt") rPfmt(o);
@@ -441,6 +443,43 @@ public:
       });
     }
     ctx.ev("q=" + std::to_string(acc)); ctx.evi("raised", raised);
+    ctx.outcome("read");
+  }
+  // ---- vector / sequence descriptions and the parameter grid read from the option map (NumCalcApplicationTools)
+  // a numeric token of magnitude >= 1e4, or a non-zero one below 0.01, makes a sequence of millions of elements: same trigger class as
+  // the other "grammatical number far outside any regular range" findings
+  static bool seqHazard(const std::string& s) {
+    size_t i = 0;
+    while (i < s.size()) {
+      if (!(std::isdigit(static_cast<unsigned char>(s[i])) || s[i] == '.')) { ++i; continue; }
+      size_t j = i; while (j < s.size() && (std::isdigit(static_cast<unsigned char>(s[j])) || s[j] == '.' || s[j] == 'e' || s[j] == 'E' || ((s[j] == '+' || s[j] == '-') && j > i && (s[j - 1] == 'e' || s[j - 1] == 'E')))) ++j;
+      double x = std::abs(strtod(s.substr(i, j - i).c_str(), nullptr));
+      if (!(x < 1e4) || (x > 0 && x < 0.01)) return true;
+      i = j;
+    }
+    return false;
+  }
+  void rNumcalc(const Op& o) {
+    if (!haveMap) { ctx.outcome("skip"); return; }
+    using bpp::NumCalcApplicationTools;
+    int raised = 0; uint64_t acc = 5;
+    std::vector<std::pair<std::string, std::string>> kv; for (auto& e : lastMap) { if (kv.size() < 16) kv.push_back(e); }
+    std::string d1 = (o.b & 1) ? ";" : ",", d2 = (o.b & 2) ? ":" : "-";
+    for (auto& e : kv) {
+      const std::string& value = e.second;
+      ctx.hazard(seqHazard(value) ? "out-of-range-number" : "");
+      raised += guard("NumCalcApplicationTools::getVector", [&] { std::vector<double> v = NumCalcApplicationTools::getVector(value); acc = acc * 31 + v.size(); });
+      raised += guard("NumCalcApplicationTools::seqFromString", [&] { std::vector<int> v = NumCalcApplicationTools::seqFromString(value, d1, d2); acc = acc * 31 + v.size(); });
+    }
+    bool hz = false; for (auto& e : lastMap) if (e.first.compare(0, 5, "grid.") == 0 && seqHazard(e.second)) hz = true;
+    ctx.hazard(hz ? "out-of-range-number" : "");
+    std::string suffix = (o.b & 4) ? "_sfx" : ""; bool sOpt = o.b & 8;
+    raised += guard("NumCalcApplicationTools::getParameterGrid", [&] {
+      auto g = NumCalcApplicationTools::getParameterGrid(lastMap, suffix, sOpt, false);
+      if (g) { acc = acc * 31 + g->getNumberOfDimensions(); acc = acc * 31 + g->getTotalNumberOfPoints(); }
+    });
+    ctx.hazard("");
+    ctx.ev("n=" + std::to_string(acc)); ctx.evi("raised", raised);
     ctx.outcome("read");
   }
   void rParseOpts(const Op& o) {
